@@ -167,12 +167,16 @@ def link(rep, c, sfx):
                     between = [x for x in ev[li:ei] if x.kind == "call" and callee(x.node) in (
                         "alloc::vec::Vec::push", "alloc::vec::Vec::truncate", "alloc::vec::Vec::pop")]
                     okp = li > si and not between
-                # the patched token must be queue[s]
-                pm = next((g for g in reversed(ev[:ev.index(patch[-1])]) if g.kind == "arm"), None)
-                if pm is not None:
-                    scr = peel(pm.node["scrut"])
+                # the patched token must be queue[s]: the binding that is assigned through destructures queue[s]
+                # (`match queue[s] { Start { ref mut end_token_index, .. } => .. }` or the `if let` spelling)
+                tgt = peel(patch[-1].node["l"])
+                src = hirq.binding_source(fn, tgt["id"]) if kind(tgt) == "Path" and tgt.get("res") == "local" else None
+                if src is not None:
+                    scr = peel(src)
                     if not (kind(scr) == "Index" and hirq.root_let(hirq.local_id(scr["idx"]), lets) == sid):
                         okp = False
+                else:
+                    okp = False
             if not okp:
                 r.violation("%s:end-index" % key, where(ev[ei].node), "Start.end_token_index is not patched with "
                             "the queue length read right before the End push (or not on queue[s])")
@@ -366,13 +370,43 @@ def guard(rep, c, sfx):
                 out.append((n, "self.%s()" % n["m"]))
         return out
 
+    def safe_call(e):
+        e = peel(e)
+        return kind(e) == "MethodCall" and e.get("path") in safe_opt and base_name(e["recv"]) == "self"
+
+    def none_arms_diverge(m):
+        """`match self.peek() { Some(p) => .., None => return .. }`: every arm that can take None diverges."""
+        some = False
+        for arm in m["arms"]:
+            vs = hirq.pat_variants(arm["pat"])
+            is_some = any(v.endswith("Option::Some") for v in vs) and not hirq.pat_is_catchall(arm["pat"])
+            if is_some:
+                some = True
+            elif not (hirq.diverges(arm["body"]) or arm["body"].get("ty") == "!"):
+                return False
+        return some
+
     def guarded(ctx, n):
         for g in ctx.guards(n):
             if g[0] in ("if", "not", "guard"):
                 if "nonempty" in cmp_facts(g[1], g[2]):
                     return True
+                c0 = peel(g[1])
+                if g[0] == "if" and g[2] is True and kind(c0) == "LetExpr" and safe_call(c0["init"]) \
+                        and any(v.endswith("Option::Some") for v in hirq.pat_variants(c0["pat"])):
+                    return True   # inside `if let Some(..) = self.peek()`
+            elif g[0] == "arm":
+                m, idx = g[1], g[2]
+                if safe_call(m["scrut"]) and any(v.endswith("Option::Some") for v in hirq.pat_variants(m["arms"][idx]["pat"])):
+                    return True   # inside the Some arm of `match self.peek()`
             elif g[0] == "let":
                 init = g[1].get("init")
+                if init is not None and kind(peel(init)) == "Match" and peel(init).get("src") != "try" \
+                        and safe_call(peel(init)["scrut"]) and none_arms_diverge(peel(init)):
+                    return True   # after `let p = match self.peek() { Some(p) => p, None => return .. }`
+                if init is not None and g[1].get("els") is not None and safe_call(init) \
+                        and any(v.endswith("Option::Some") for v in hirq.pat_variants(g[1]["pat"])):
+                    return True   # after `let Some(p) = self.peek() else { return .. }`
                 if init is not None and kind(init) == "Match" and init.get("src") == "try":
                     arg = init["scrut"]["args"][0] if kind(init["scrut"]) == "Call" and init["scrut"]["args"] else None
                     if arg is not None and kind(peel(arg)) == "MethodCall" and peel(arg).get("path") in safe_opt \
@@ -492,7 +526,21 @@ def linebreak(rep, c, sfx):
         ctx = hirq.Ctx(li)
         pushes = [n for n in walk(li["body"]) if kind(n) == "MethodCall" and n["m"] == "push"]
         if not pushes:
-            r.lost("line start push in LineIndex::new")
+            # no explicit push (an iterator pipeline such as char_indices().filter(..).map(..)): the characters the
+            # constructor distinguishes at all are the ones that can decide a line start
+            chars = char_lits(li["body"])
+            uses_lines = any(kind(n) == "MethodCall" and n["m"] in ("lines", "split_terminator", "split_inclusive")
+                             and not char_lits(n) for n in walk(li["body"]))
+            if not chars and not uses_lines:
+                r.lost("line start push in LineIndex::new")
+            else:
+                r.instance("LineIndex::new", where(li["body"]), "line starts decided by chars %s%s" % (
+                    sorted(chars), " and str line splitting" if uses_lines else ""))
+                if chars != {"\n"} or uses_lines:
+                    r.violation("LineIndex::new", where(li["body"]),
+                                "line starts are decided by %s%s, not exactly by '\\n': Pair::line_col disagrees with "
+                                "Position::line_col for inputs containing the other line ending" % (
+                                    sorted(chars), " and str line splitting" if uses_lines else ""))
         for p in pushes:
             chars = set()
             for g in ctx.guards(p):
